@@ -35,6 +35,22 @@ XML_PROTOS = ('XmlDocument', 'Soap11', 'Soap12')
 DICT_PROTOS = ('JsonDocument', 'YamlDocument', 'MessagePackDocument')
 KEEP_ALIVE = []      # generated classes are never freed: memoize_id caches are keyed by id()
 STATS = {}
+REPORTED = {}       # coarse class of a violation -> number of times reported (at most 3 replays per class)
+SUPPRESSED = {}
+
+
+def report_fail(check, key, what, replay):
+    """check.fail, but at most three replays per (site, protocol, polymorphic, kind): the shape of the
+    value is part of the key, and one defect shows up under many shapes"""
+    coarse = '|'.join(key.split('|')[:5]) if key.split('|')[3:4] in (['request'], ['response']) else '|'.join(key.split('|')[:4])
+    if key in check.known_keys:
+        return check.fail(key, what, replay)
+    n = REPORTED.get(coarse, 0)
+    if n >= 3:
+        SUPPRESSED[coarse] = SUPPRESSED.get(coarse, 0) + 1
+        return True
+    REPORTED[coarse] = n + 1
+    return check.fail(key, what, replay)
 
 
 def stat(kind, what, outcome):
@@ -1172,8 +1188,8 @@ def oracle_case(check, desc, b, mi, v, proto, poly, report=True):
                               'members of the %s are not in the order ancestors first, then own: %r' % (which, doc)))
     if report:
         for key, what in fails:
-            check.fail(key, what, {'kind': 'roundtrip', 'program': desc, 'method': mi, 'value': v, 'protocol': proto,
-                                   'polymorphic': poly})
+            report_fail(check, key, what, {'kind': 'roundtrip', 'program': desc, 'method': mi, 'value': v, 'protocol': proto,
+                                      'polymorphic': poly})
     return fails
 
 
@@ -1240,8 +1256,8 @@ def oracle_negative(check, desc, b, mi, v, proto, report=True):
                           bad))
     if report:
         for key, what, bad in fails:
-            check.fail(key, what, {'kind': 'negative', 'program': desc, 'method': mi, 'value': v, 'protocol': proto,
-                                   'marker': bad})
+            report_fail(check, key, what, {'kind': 'negative', 'program': desc, 'method': mi, 'value': v, 'protocol': proto,
+                                      'marker': bad})
     return fails
 
 
@@ -1458,6 +1474,8 @@ def run(check):
     probe_empty_root(check)
     lib.flush_correspondences(check)
     check.extra['outcomes_by_mutation'] = dict(sorted(STATS.items()))
+    if SUPPRESSED:
+        check.extra['further_violations_of_reported_classes'] = dict(sorted(SUPPRESSED.items()))
     return check.finish()
 
 
